@@ -140,11 +140,12 @@ pub fn judge_nonmember(c: &NonMember) -> Verdict {
         "glued primaries" => "non-member: glued primaries",
         "format junk" => "non-member: bad format directive",
         "operator glued to punctuation" => "non-member: operator word glued to punctuation",
+        "keyword edit" => "non-member: keyword with one character edited",
         _ => "non-member: other",
     };
     match parse_tree(&c.text) {
         Err(p) => Verdict::Fail(format!("parse panicked on non-member {:?}: {p}", c.text)),
-        Ok(Err(_)) => Verdict::Pass { nt: c.valid_prefix, class },
+        Ok(Err(_)) => Verdict::Pass { nt: c.valid_prefix || c.class == "keyword edit", class },
         Ok(Ok((d, t, tree))) => {
             if let Some(u) = &c.unglued {
                 // signature of finding F10: accepted exactly as if the blank were there
@@ -159,12 +160,39 @@ pub fn judge_nonmember(c: &NonMember) -> Verdict {
     }
 }
 
+pub fn judge_long_word(kw: &str, unit: &str, n: usize, tail: &str, quoted: bool) -> Verdict {
+    let mk: fn(String) -> E = match kw {
+        "-name" => |s| E::T(Tst::Name(s)),
+        "-ipath" => |s| E::T(Tst::IPath(s)),
+        "-pool" => |s| E::T(Tst::Pool(s)),
+        "-fprint" => |s| E::A(Act::FPrint(s)),
+        _ => |s| E::T(Tst::U(UTest::Regex(s))),
+    };
+    let mut word = unit.repeat(n);
+    word.push_str(tail);
+    let text = if quoted { format!("{kw} '{word}' -print") } else { format!("{kw} {word} -print") };
+    let exp = E::and(mk(word.clone()), E::A(Act::Print));
+    let how = if quoted { "quoted" } else { "bare" };
+    match parse_tree(&text) {
+        Err(p) => Verdict::Fail(format!("parse panicked on {kw} with a {}-character word: {p}", word.chars().count())),
+        Ok(Err(e)) => Verdict::Fail(format!("{kw} with a {}-character {how} word ({unit:?} x {n} + {tail:?}) was rejected: {}", word.chars().count(), truncate(&e.to_string(), 200))),
+        Ok(Ok((_, _, tree))) => {
+            if tree == exp {
+                Verdict::Pass { nt: true, class: "member (very long argument word)" }
+            } else {
+                Verdict::Fail(format!("{kw} with a {}-character {how} word ({unit:?} x {n} + {tail:?}): the node does not carry exactly that word: {}", word.chars().count(), truncate(&format!("{tree:?}"), 300)))
+            }
+        }
+    }
+}
+
 fn nonmember_json(c: &NonMember) -> Value {
     json!({"kind": "nonmember", "class": c.class, "input": c.text, "unglued": c.unglued, "valid_prefix": c.valid_prefix})
 }
 
 pub fn replay(case: &Value) -> Result<Verdict, String> {
     match case["kind"].as_str() {
+        Some("long-word") => Ok(judge_long_word(case["keyword"].as_str().unwrap_or("-name"), case["unit"].as_str().unwrap_or("a"), case["count"].as_u64().unwrap_or(1) as usize, case["tail"].as_str().unwrap_or(""), case["quoted"].as_bool().unwrap_or(false))),
         Some("member") => {
             let leaf = term::decode_expr(case["leaf"].as_str().ok_or("no leaf")?)?;
             let choices: Vec<u16> = case["choices"].as_array().ok_or("no choices")?.iter().map(|v| v.as_u64().unwrap_or(0) as u16).collect();
@@ -408,6 +436,61 @@ pub fn run(ctx: &Ctx) -> Report {
                     let v = judge_nonmember(&c);
                     st.record(&v, stable_hash(&c), false, || nonmember_json(&c));
                 }
+            }
+        }
+    }
+    // very long argument words, bare and quoted, with lengths at powers of two (length limits,
+    // narrowed length fields); also with punctuation inside a bare word right after such a length
+    for kw in ["-name", "-ipath", "-pool", "-fprint", "-regex"] {
+        for n in [255usize, 256, 257, 4095, 4096, 4097, 5000, 20000, 65535, 65536, 65537] {
+            for (unit, tail) in [("a", ""), ("é", ""), ("a", ",-print"), ("a", "(x"), ("a", "!y"), ("a", ",")] {
+                for quoted in [false, true] {
+                    let v = judge_long_word(kw, unit, n, tail, quoted);
+                    st.record(&v, stable_hash(&(kw, n, unit, tail, quoted)), true, || json!({"kind": "long-word", "keyword": kw, "unit": unit, "count": n, "tail": tail, "quoted": quoted}));
+                }
+            }
+        }
+    }
+    // every single-character edit of every keyword (a neighbouring spelling character in its place,
+    // one character dropped, doubled, two swapped, case flipped) that is not itself a keyword is no
+    // word of the vocabulary: the whole input is an error
+    for leaf in &leaves {
+        let Some(words) = render::primary_words(leaf, &mut render::Canon) else { continue };
+        let kw: Vec<char> = words[0].text.chars().collect();
+        let rest: Vec<&str> = words.iter().skip(1).map(|t| t.text.as_str()).collect();
+        let mut variants: BTreeSet<String> = BTreeSet::new();
+        for i in 1..kw.len() {
+            for a in ['_', '-', '.', ':', '0', 'x'] {
+                if a != kw[i] {
+                    let mut v = kw.clone();
+                    v[i] = a;
+                    variants.insert(v.iter().collect());
+                }
+            }
+            let mut v = kw.clone();
+            v.remove(i);
+            variants.insert(v.iter().collect());
+            let mut v = kw.clone();
+            v.insert(i, kw[i]);
+            variants.insert(v.iter().collect());
+            if i + 1 < kw.len() {
+                let mut v = kw.clone();
+                v.swap(i, i + 1);
+                variants.insert(v.iter().collect());
+            }
+            let mut v = kw.clone();
+            v[i] = if kw[i].is_ascii_lowercase() { kw[i].to_ascii_uppercase() } else { kw[i].to_ascii_lowercase() };
+            variants.insert(v.iter().collect());
+        }
+        for bad_kw in variants {
+            if bad_kw.len() < 2 || KEYWORDS.contains(&bad_kw.as_str()) || bad_kw == words[0].text {
+                continue;
+            }
+            for wrap in [0u8, 2] {
+                let p = if rest.is_empty() { bad_kw.clone() } else { format!("{bad_kw} {}", rest.join(" ")) };
+                let c = NonMember { class: "keyword edit".into(), text: wrap_text(&p, wrap), unglued: None, valid_prefix: false };
+                let v = judge_nonmember(&c);
+                st.record(&v, stable_hash(&c), true, || nonmember_json(&c));
             }
         }
     }
